@@ -201,7 +201,7 @@ class Buffer:
         returns the content of the buffer, decoded with given parameters.
         """
         if self.padding is Padding.RIGHT:
-            buffer = self.pad(padding=Padding.LEFT)
+            buffer = self.pad(padding=Padding.LEFT, inplace=False)
         else:
             buffer = self
         
@@ -359,7 +359,7 @@ class Buffer:
         if self.length != another.length:
             raise ValueError('buffers must be of the same length')
         if another.padding != self.padding:
-            another = another.pad(self.padding)
+            another = another.pad(self.padding, inplace=False)
 
         bitwise_and_content: bytes = b''
         for (self_chunk, another_chunk) in  zip(iter(self.content), iter(another.content)):
@@ -372,7 +372,7 @@ class Buffer:
         if self.length != another.length:
             raise ValueError('buffers must be of the same length')
         if another.padding != self.padding:
-            another = another.pad(self.padding)
+            another = another.pad(self.padding, inplace=False)
 
         bitwise_or_content: bytes = b''
         for (self_chunk, another_chunk) in  zip(iter(self.content), iter(another.content)):
@@ -385,7 +385,7 @@ class Buffer:
         if self.length != another.length:
             raise ValueError('buffers must be of the same length')
         if another.padding != self.padding:
-            another = another.pad(self.padding)
+            another = another.pad(self.padding, inplace=False)
 
         bitwise_xor_content: bytes = b''
         for (self_chunk, another_chunk) in  zip(iter(self.content), iter(another.content)):
